@@ -1,7 +1,7 @@
 #!/bin/sh
 # usage: coqshow.sh Proofs/X.v LINE  — compile a copy truncated before LINE with `Show.` appended
 f=$1; n=$2
-cd /verif/coq
+cd ${COQDIR:-/verif/coq}
 head -n $((n-1)) $f > /tmp/_show.v
 echo "Show. Abort." >> /tmp/_show.v
 coqc -Q . Entrait -o /tmp/_show.vo /tmp/_show.v 2>&1 | grep -v conda | tail -${3:-40}
